@@ -28,7 +28,7 @@ PROPS = {
     "C06": ["C06_syntax.v", "C06_evaluates_identically.v"],
     "C07": ["C07_control.v", "C10_objects_sorted.v"],
     "C08": ["C08_frames.v"],
-    "C09": ["C09_reads.v", "C09_stores.v"],
+    "C09": ["C09_reads.v", "C09_stores.v", "C09_creates.v"],
     "C10": ["C10_determinism.v", "C10_objects_sorted.v"],
     "C11": ["C11_faults.v"],
     "C12": ["C12_positions.v"],
